@@ -15,7 +15,7 @@ import torch
 from harness.lib import common as C
 from harness.drivers.C11 import py_comp, py_idx, coq_comp, FULL, exc_name, all_ints
 
-COQ_TARGETS = ["Models/C10_mvn.vo", "Proofs/C10_mvn.vo"]
+COQ_TARGETS = ["Models/C10_mvn.vo", "Proofs/C10_mvn.vo", "Models/C10_broadcast.vo"]
 LEVEL_NOTE = ("theorems are about the Gallina model ((mean, cov) pairs, generic field); tie to /repo is differential: "
               "exact gathers for indexing, exact rationals + mpmath for densities (1e-8)")
 IMPORTS = ("From Coq Require Import List ZArith QArith Qcanon.\n"
@@ -592,6 +592,40 @@ def run_broadcast(out, ctx):
     ns = (1, 2, 3)
     pools = {}
 
+    # ---- the index map used below (which slice of which operand sits where) is the Coq model's (Models/C10_broadcast.v,
+    # theorems c10_broadcast_*): every ordered pair of the 13 shapes, broadcastable or not, against torch.broadcast_shapes /
+    # Tensor.expand and against sub_index
+    allp = [(s_, t_) for s_ in SW_SHAPES for t_ in SW_SHAPES]
+    res = C.coq_run_cases("C10_bc", IMPORTS + "\nFrom GPV Require Import Models.C10_broadcast.", "Definition run := run_broadcast.",
+                          ["(%s, %s)" % (C.nat_list(list(s_)) if s_ else "(@nil nat)", C.nat_list(list(t_)) if t_ else "(@nil nat)")
+                           for s_, t_ in allp], shard=32)
+    for (s_, t_), r in zip(allp, res):
+        full = broadcastable(s_, t_)
+        case = dict(shape_p=list(s_), shape_q=list(t_), what="broadcast-model")
+        out.case(case, s_ != t_, label="broadcast-model")
+        rd = C.Reader(r)
+        if rd.int() == 0:
+            if full is not None:
+                out.fail("model:broadcast:acceptance", "Coq model rejects a pair torch broadcasts", case, impl=list(full))
+            continue
+        if full is None:
+            out.fail("model:broadcast:acceptance", "Coq model broadcasts a pair torch rejects", case)
+            continue
+        rank = rd.int()
+        mshape = tuple(rd.int() for _ in range(rank))
+        ids_s = torch.arange(int(math.prod(s_))).reshape(s_).expand(full) if len(full) else torch.arange(1).reshape(())
+        ids_t = torch.arange(int(math.prod(t_))).reshape(t_).expand(full) if len(full) else torch.arange(1).reshape(())
+        ok = mshape == tuple(full)
+        for b in (bidx_iter(full) if ok else []):
+            ms = tuple(rd.int() for _ in range(len(s_)))
+            mt = tuple(rd.int() for _ in range(len(t_)))
+            flat = lambda idx, shp: int(torch.arange(int(math.prod(shp))).reshape(shp)[idx]) if shp else 0  # noqa: E731
+            if ms != sub_index(s_, full, b) or mt != sub_index(t_, full, b) or flat(ms, s_) != int(ids_s[b]) or flat(mt, t_) != int(ids_t[b]):
+                ok = False
+                break
+        if not ok:
+            out.fail("model:broadcast:index-map", "Coq broadcast model, sub_index and torch's expand disagree", case, model=list(mshape))
+
     def get_pool(n, rep, which):
         k = (n, rep, which)
         if k not in pools:
@@ -762,11 +796,18 @@ def run(out, ctx):
                 "{None,1,2,3} (exhaustive for dense, strided sample for the other representations), index tensors, trailing "
                 "ellipsis, batch-only and malformed tuples; log_prob for 4-5 value shapes broadcasting both ways, fast path on/off; "
                 "KL over representation pairs; rsample(base_samples) against the operator's own root; scalar +,*,/, add_jitter, "
-                "sums, expand, unsqueeze.  non-trivial = valid index selecting >= 1 entry (indexing), n >= 2 (others)")
+                "sums, expand, unsqueeze; broadcasting sweep: ALL 123 ordered broadcastable pairs of batch shapes of rank 0..2 with "
+                "sizes in {1,2,3} (different ranks and size-1 dimensions on both sides) for KL(p||q) (n 1..3, representation pairs "
+                "dense-dense + 5 rotating, all 25 in the thorough tier), log_prob (distribution x value shape, fast path on/off, "
+                "5 representations, n 2..3) and p + q, each element compared with the closed form of the two slices the Coq "
+                "broadcast model puts there (slices drawn from a pool of 9 different Gaussians per side so that a misplaced "
+                "slice changes the value); expand to every admissible target.  "
+                "non-trivial = valid index selecting >= 1 entry (indexing), n >= 2 (others), shapes differ (sweep)")
     out.extra["tolerances"] = {"gather / affine (exact copies, dyadic data)": 1e-12, "log_prob, KL (float64 Cholesky vs exact rational + mpmath)": 1e-8,
                                "rsample": 1e-9}
     out.tested_not_proved = ["KL >= 0 and equality of the Cholesky / inv_quad_logdet form with the closed form (log det monotonicity, "
-                             "DESIGN 9.3)", "log_prob broadcasting of value against batch (compared element-wise with the exact density)",
+                             "DESIGN 9.3)", "log_prob / KL / + broadcasting against the batch (every broadcastable shape pair of rank <= 2, sizes <= 3, compared "
+                             "element-wise with the exact density of the slices the proved index map selects)",
                              "sample moments converge (not tested: would be a flaky statistical check)",
                              "torch indexing semantics on batch components"]
 
